@@ -115,7 +115,8 @@ prop(
     level_text=("Every lookup is compared with a straightforward reference; GetMatchingNode with the documented rule, and its verdict must be "
                 "identical across permutations of the list and repetitions (map iteration order)."),
     level_note="trusts rapid and the harness's reference matcher (harness/props/c16_test.go)",
-    jobs=[{"test": "TestC16", "checks": 6000, "timeout": 300, "thorough": {"checks": 80000, "shards": 16, "timeout": 1500}}],
+    jobs=[{"test": "TestC16", "checks": 6000, "timeout": 300, "thorough": {"checks": 80000, "shards": 16, "timeout": 1500}},
+          {"test": "TestC16Findings", "rapid": False, "timeout": 60}],
     floor={"quick": 300, "thorough": 5000},
 )
 
@@ -297,7 +298,7 @@ prop(
     level="fault_enumeration",
     technique="systematic schema-fault enumeration over every JSON path + property-based hostile-input generation (rapid) + native go fuzzing in the thorough tier",
     design_ref="DESIGN.md §5 C04",
-    rule=("Every single fault (15 operators: null, number, negative, float, string, bool, object, array, empty, absent, duplicate, oversized, deep, nulls, null_run) at every "
+    rule=("Every single fault (16 operators: null, number, negative, float, string, bool, object, array, empty, absent, duplicate, oversized, deep, nulls, null_run, blank) at every "
           "JSON path of four representative documents (hand-written SPDX 2.3 and CycloneDX 1.5 documents populating every member the parsers read, bom-1.4.json, "
           "bom-1.5.json); double faults sampled (quick) or enumerated on the hand-written documents (thorough); rapid-generated byte strings, JSON token soup, "
           "truncations, BOM prefixes, nesting to 20000 levels, 1 MB strings, tag-value look-alikes; depth-n / width-n scaling families n=8..512; thorough adds "
@@ -553,3 +554,4 @@ _revise("C14", add_assumptions=["a oneof whose set member changes counts as one 
 _revise("C19", add_assumptions=["an identifier whose entry file was removed behind the store's back need not be storable again; when the session's directory cannot be removed (a store may write-protect "
                                 "what it creates) the action only brings the model up to date"])
 _revise("C20", add_assumptions=["a storing process that ends after a crash state is read as a store that did not succeed: the oracle is what the following retrieve returns"])
+_revise("C16", add_assumptions=["node identifiers within a generated list are distinct: with a repeated identifier GetMatchingNode counts two matching nodes as one candidate and returns whichever comes first (KF-07)"])
